@@ -141,23 +141,83 @@ def snapshot():
 
 
 # ---- executing a call -------------------------------------------------------------------
-def make_registry(spec):
+# A registry= argument is described by one of
+#   ABSENT                         not passed
+#   (cls, allowed)                 cls in jws/7797/jwe: constructed for this call, default settings
+#   ("fresh", specdict)            constructed for this call with settings
+#   ("ref", i)                     the caller's long-lived object HEAP[i] (shared between calls)
+# specdict = {"cls", "allowed", "strict", "verify_all", "extra"}
+HEAP = []        # [(specdict, object)]
+HEAP_SNAP = []   # deep snapshot of each shared object at creation
+TRACK = []       # every registry object ever handed to the library: [(object, deep snapshot at creation)]
+
+
+def spec_of(reg):
+    if reg[0] == "ref":
+        return HEAP[reg[1]][0]
+    if reg[0] == "fresh":
+        return reg[1]
+    return {"cls": reg[0], "allowed": reg[1], "strict": True, "verify_all": True, "extra": []}
+
+
+def reg_snapshot(r):
+    """deep snapshot of vars(reg): contents, not identity"""
+    d = dict(vars(r))
+    hr = d.pop("header_registry", {})
+    return (type(r).__module__ + "." + type(r).__name__,
+            tuple(sorted((k, repr(v)) for k, v in d.items())),
+            tuple((k, type(v).__name__, bool(v.required), getattr(v.validate, "__name__", repr(v.validate)))
+                  for k, v in hr.items()))
+
+
+def build_registry(sd):
+    import copy
     from joserfc import jws, jwe
+    from joserfc.registry import HeaderParameter
     from joserfc.rfc7797.registry import JWSRegistry as R7797
-    cls, allowed = spec
-    if cls == "jws":
-        return jws.JWSRegistry(algorithms=allowed)
-    if cls == "7797":
-        return R7797(algorithms=allowed)
-    return jwe.JWERegistry(algorithms=allowed)
+    allowed = copy.deepcopy(sd["allowed"])
+    extra = {k: HeaderParameter("c05 extra header", "str") for k in sd.get("extra", [])} or None
+    if sd["cls"] == "jwe":
+        r = jwe.JWERegistry(header_registry=extra, algorithms=allowed,
+                            verify_all_recipients=sd.get("verify_all", True), strict_check_header=sd.get("strict", True))
+    else:
+        cls = jws.JWSRegistry if sd["cls"] == "jws" else R7797
+        r = cls(header_registry=extra, algorithms=allowed, strict_check_header=sd.get("strict", True))
+    TRACK.append((r, reg_snapshot(r)))
+    return r
 
 
-def kwargs_of(d):
+def make_registry(reg):
+    if reg[0] == "ref":
+        return HEAP[reg[1]][1]
+    return build_registry(spec_of(reg))
+
+
+def new_shared(sd):
+    r = build_registry(sd)
+    HEAP.append((sd, r))
+    HEAP_SNAP.append(reg_snapshot(r))
+    return len(HEAP) - 1
+
+
+def freshened(d):
+    """the same call with a freshly constructed equal registry instead of a shared one"""
+    if not absent(d["registry"]) and d["registry"][0] == "ref":
+        return dict(d, registry=("fresh", spec_of(d["registry"])))
+    return d
+
+
+def absent(v):
+    return v is ABSENT
+
+
+def kwargs_of(d, regobj=None):
+    import copy
     kw = {}
     if d["algorithms"] is not ABSENT:
-        kw["algorithms"] = d["algorithms"]
+        kw["algorithms"] = copy.deepcopy(d["algorithms"])
     if d["registry"] is not ABSENT:
-        kw["registry"] = make_registry(d["registry"])
+        kw["registry"] = regobj if regobj is not None else make_registry(d["registry"])
     return kw
 
 
@@ -329,15 +389,16 @@ def craft_jwe(d, K, shape):
     return out
 
 
-def execute(d, K):
-    """-> ("name", str) | ("ok", None) | ("err", exception)"""
+def execute(d, K, regobj=None, kwout=None):
+    """-> ("name", str) | ("ok", None) | ("err", exception).  regobj: the already
+    materialised registry= object; kwout: receives the keyword arguments handed over"""
     try:
-        return _execute(d, K)
+        return _execute(d, K, regobj, kwout)
     except BaseException as e:  # noqa
         return ("err", e)
 
 
-def _execute(d, K):
+def _execute(d, K, regobj=None, kwout=None):
     from joserfc import jws, jwe, jwt
     from joserfc.errors import BadSignatureError
     from joserfc.rfc7515 import registry as r7515
@@ -351,14 +412,16 @@ def _execute(d, K):
             reg = r7515.default_registry if fam == "jws" else r7516.default_registry
             meth = rest.split(".", 1)[1]
         else:
-            reg = make_registry(d["registry"])
+            reg = regobj if regobj is not None else make_registry(d["registry"])
             meth = rest
         m = getattr(reg, meth)(d["name"])
         tbl = jws.JWSRegistry.algorithms if fam == "jws" else jwe.JWERegistry.algorithms[meth[4:]]
         if tbl.get(m.name) is not m:
             return ("err", RuntimeError("returned model is not the registered one"))
         return ("name", m.name)
-    kw = kwargs_of(d)
+    kw = kwargs_of(d, regobj)
+    if kwout is not None:
+        kwout.update(kw)
     jkey = lambda o: K.jws(_alg_of(o))   # noqa: E731
     # ---- JWS signing
     if op == "jws.serialize_compact":
@@ -468,8 +531,39 @@ def c_alw(v):
     return "PNone" if (v is ABSENT or v is None) else c_pv(v)
 
 
-def c_regopt(r):
-    return "None" if r is ABSENT else "(Some %s)" % c_alw(r[1])
+RCLS = {"jws": "RcJws", "7797": "Rc7797", "jwe": "RcJwe"}
+
+
+def c_regsel(r):
+    if r is ABSENT:
+        return "RAbsent"
+    if r[0] == "ref":
+        return "(RRef %d%%nat)" % r[1]
+    sd = spec_of(r)
+    return "(RFresh %s %s)" % (RCLS[sd["cls"]], c_alw(sd["allowed"]))
+
+
+def c_regobj(sd):
+    return ("{| ro_cls := %s; ro_allowed := %s; ro_strict := %s; ro_verify_all := %s; ro_extra_headers := %s |}" % (
+        RCLS[sd["cls"]], c_alw(sd["allowed"]), c_bool(sd.get("strict", True)), c_bool(sd.get("verify_all", True)),
+        c_list([c_k(k) for k in sd.get("extra", [])])))
+
+
+def heap_observed(idx_list=None):
+    """specdicts read back from the live shared objects (what vars(reg) says now)"""
+    from joserfc.rfc7797.registry import JWSRegistry as R7797
+    from joserfc.jwe import JWERegistry
+    out = []
+    for sd, r in HEAP:
+        cls = "jwe" if isinstance(r, JWERegistry) else ("7797" if isinstance(r, R7797) else "jws")
+        base = set(getattr(type(r), "default_header_registry", {})) if cls != "jwe" else None
+        if base is None:
+            from joserfc.registry import JWE_HEADER_REGISTRY
+            base = set(JWE_HEADER_REGISTRY)
+        out.append({"cls": cls, "allowed": r.allowed, "strict": r.strict_check_header,
+                    "verify_all": getattr(r, "verify_all_recipients", True),
+                    "extra": [k for k in r.header_registry if k not in base]})
+    return out
 
 
 def c_optpv(v):
@@ -488,22 +582,21 @@ def c_call(d):
         loc = {"get_alg": "LAlg", "get_enc": "LEnc", "get_zip": "LZip"}[rest.split(".")[-1]]
         if rest.startswith("default."):
             return "CallJwsDefGet %s" % n if fam == "jws" else "CallJweDefGet %s %s" % (loc, n)
-        a = c_alw(d["registry"][1])
+        if d["registry"][0] == "ref":
+            return "CallRefGet %s %d%%nat %s" % ("GJws" if fam == "jws" else "(GJwe %s)" % loc, d["registry"][1], n)
+        a = c_alw(spec_of(d["registry"])["allowed"])
         return "CallJwsGet %s %s" % (a, n) if fam == "jws" else "CallJweGet %s %s %s" % (loc, a, n)
     alg, reg = c_alw(d["algorithms"]), d["registry"]
     if op in ("jwt.encode", "jwt.decode", "jwt.encode/jwe", "jwt.decode/jwe"):
-        if reg is ABSENT:
-            r = "RNone"
-        else:
-            r = "(%s %s)" % ("RJwe" if reg[0] == "jwe" else "RJws", c_alw(reg[1]))
+        r = c_regsel(reg)
         enc = c_optpv(d.get("enc", ABSENT))
         z = c_optpv(d.get("zip", ABSENT))
         return "CallJwt %s %s %s %s %s %s" % (c_bool("decode" in op), alg, r, c_pv(d["algs"][0]), enc, z)
     if op in JWS_SIGN_OPS or op in JWS_VERIFY_OPS:
         k = "(K7797 %s)" % c_bool(d["b64"] is not ABSENT) if op.startswith("rfc7797") else "KPlain"
         return "%s %s %s %s %s" % ("CallJwsSign" if op in JWS_SIGN_OPS else "CallJwsVerify", k, alg,
-                                   c_regopt(reg), c_names(d["algs"]))
-    return "CallJwe %s %s %s %s %s" % (alg, c_regopt(reg), c_pv(d["enc"]), c_names(d["algs"]), c_optpv(d["zip"]))
+                                   c_regsel(reg), c_names(d["algs"]))
+    return "CallJwe %s %s %s %s %s" % (alg, c_regsel(reg), c_pv(d["enc"]), c_names(d["algs"]), c_optpv(d["zip"]))
 
 
 def c_verdict_for(d, v):
@@ -535,7 +628,7 @@ def designated(d, rec):
     elif not (algs is ABSENT or algs is None or isinstance(algs, (list, tuple))):
         return [], False
     if reg is not ABSENT:
-        s = allow_set(reg[1], rec)
+        s = allow_set(spec_of(reg)["allowed"], rec)
         if s is None:
             return [], False
         sets.append(s)
@@ -665,7 +758,15 @@ class Gen:
             algorithms = None
         if mode in ("reg", "both"):
             registry = (cls, self.allow_for(used, universe, rec, ill))
+            if rng.random() < 0.2:
+                registry = ("fresh", self.settings(cls, registry[1]))
         return algorithms, registry
+
+    def settings(self, cls, allowed):
+        rng = self.rng
+        return {"cls": cls, "allowed": allowed, "strict": rng.random() < 0.6,
+                "verify_all": rng.random() < 0.6 if cls == "jwe" else True,
+                "extra": rng.choice([[], [], ["c05x"], ["c05x", "c05y"]])}
 
     def jws_algs(self, n=1, json_only=False):
         rng = self.rng
@@ -721,7 +822,7 @@ def jws_calls(g, ctx):
             b64v = rng.choice([ABSENT, ABSENT, True, False]) if is7797 else ABSENT
             algorithms, registry = g.args("jws", algs, b64present=b64v is not ABSENT)
             if op in ("jwt.encode", "jwt.decode") and registry is not ABSENT:
-                registry = ("jws", registry[1])
+                registry = ("jws", spec_of(registry)["allowed"])
             d = {"op": op, "algs": algs, "b64": b64v, "algorithms": algorithms, "registry": registry}
             if op == "jws.serialize_json/flat":
                 d["hdrloc"] = rng.choice(["protected", "protected", "header"])
@@ -768,6 +869,94 @@ def jwe_name_sets(g, ctx, general, dec):
             out.append((algs, e, z))
         sets = out
     return sets
+
+
+def shared_specs(g):
+    """the caller's long-lived registries: every class, allow-lists of every shape, some
+    with their own header_registry / strict / verify_all settings"""
+    out = []
+    J, U = g.jws_names, g.jwe_universe
+    for cls, names, rec in (("jws", J, REC_JWS), ("7797", J, REC_JWS), ("jwe", U, REC_JWE)):
+        nonrec = [n for n in names if n not in rec]
+        shapes = [None, [], [rec[0]], nonrec[:3] + [rec[1]], list(names) + ["XX"], list(names)]
+        if cls == "jwe":
+            shapes += [["A128KW", "A128GCM"], ["A192KW", "A192GCM", "DEF"],
+                       ["dir", "RSA-OAEP", "A128CBC-HS256", "A256GCM", "DEF"]]
+        else:
+            shapes += [["none", "HS256"], ["HS384", "RS384", "ES256"]]
+        for a in shapes:
+            out.append({"cls": cls, "allowed": a, "strict": True, "verify_all": True, "extra": []})
+        for a in (None, list(rec), nonrec[:4]):
+            out.append(g.settings(cls, a))
+    return out
+
+
+def shared_call(g, ctx, refs):
+    """one call of a history over shared registry objects; refs = heap indices in play"""
+    rng, SUP = g.rng, g.SUP
+    by = {"jws": [i for i in refs if HEAP[i][0]["cls"] == "jws"], "7797": [i for i in refs if HEAP[i][0]["cls"] == "7797"],
+          "jwe": [i for i in refs if HEAP[i][0]["cls"] == "jwe"]}
+    fam = rng.choice(["jws", "jwe"])
+    if fam == "jws":
+        op = rng.choice(JWS_SIGN_OPS + JWS_VERIFY_OPS + ["jws.get_alg"])
+        verify = op in JWS_VERIFY_OPS
+        b64v = rng.choice([ABSENT, ABSENT, True, False]) if op.startswith("rfc7797") else ABSENT
+        cand = by["7797"] if b64v is not ABSENT else by["jws"] + by["7797"]
+        if op == "jws.get_alg":
+            name = rng.choice(g.jws_names + ["XX"])
+            used = [name]
+            d = {"op": op, "name": name, "algorithms": ABSENT}
+        else:
+            algs = g.jws_algs(rng.randrange(1, 4) if op.endswith("general") else 1, json_only=verify)
+            used = algs
+            d = {"op": op, "algs": algs, "b64": b64v}
+        universe, rec = g.jws_names, REC_JWS
+        fresh_cls = "7797" if b64v is not ABSENT else rng.choice(["jws", "7797"])
+    else:
+        op = rng.choice(JWE_ENC_OPS + JWE_DEC_OPS + ["jwe.get_alg", "jwe.get_enc", "jwe.get_zip"])
+        cand = by["jwe"]
+        A, E, Z = list(SUP["alg"]), list(SUP["enc"]), list(SUP["zip"])
+        wrap = [a for a in A if a not in ("dir", "ECDH-ES")]
+        if op.startswith("jwe.get_"):
+            name = rng.choice({"alg": A, "enc": E, "zip": Z}[op[-3:]] + ["XX"])
+            used = [name]
+            d = {"op": op, "name": name, "algorithms": ABSENT}
+        else:
+            n = rng.randrange(1, 4) if op.endswith("general") else 1
+            algs = [rng.choice(wrap) for _ in range(n)] if n > 1 else [rng.choice(A + ["A128KW", "A192KW", "dir"])]
+            enc, z = rng.choice(E), rng.choice([ABSENT, ABSENT] + Z)
+            used = algs + [enc] + ([] if z is ABSENT else [z])
+            d = {"op": op, "algs": algs, "enc": enc, "zip": z}
+        universe, rec = g.jwe_universe, REC_JWE
+        fresh_cls = "jwe"
+    gate = op in GATE_OPS
+    r = rng.random()
+    if cand and (r < 0.72 or gate):
+        d["registry"] = ("ref", rng.choice(cand))
+    elif r < 0.85 and not gate and not op.endswith("/jwe"):
+        d["registry"] = ABSENT
+    else:
+        d["registry"] = ("fresh", g.settings(fresh_cls, g.allow_for(used, universe, rec)))
+    if not gate:
+        k = rng.random()
+        # per-call override of every shape: absent, None, [], singleton, subset, superset, exact
+        if k < 0.35:
+            d["algorithms"] = ABSENT
+        elif k < 0.42:
+            d["algorithms"] = None
+        elif k < 0.5:
+            d["algorithms"] = []
+        elif k < 0.6:
+            d["algorithms"] = [rng.choice(universe)]
+        elif k < 0.72:
+            d["algorithms"] = [n for n in used if isinstance(n, str)] or [rng.choice(universe)]
+        elif k < 0.82:
+            d["algorithms"] = list(universe) + ["XX"]
+        else:
+            d["algorithms"] = g.allow_for(used, universe, rec)
+    if op in ("jwt.encode", "jwt.decode") and d["registry"] is not ABSENT and d["registry"][0] == "fresh":
+        d["registry"] = ("fresh", dict(d["registry"][1], cls="jws"))
+    return d
 
 
 def jwe_calls(g, ctx):
@@ -882,7 +1071,8 @@ def key_of(d):
 
 
 def replay_blob(K, calls, idx=None):
-    return base64.b64encode(pickle.dumps({"keys": K.export(), "calls": calls, "index": idx})).decode("ascii")
+    return base64.b64encode(pickle.dumps({"keys": K.export(), "calls": calls, "index": idx,
+                                          "heap": [sd for sd, _ in HEAP]})).decode("ascii")
 
 
 def describe(d):
@@ -905,6 +1095,7 @@ def run(ctx):
            "enc": list(jwe.JWERegistry.algorithms["enc"]), "zip": list(jwe.JWERegistry.algorithms["zip"])}
     snap0 = snapshot()
     _INTERN.clear()
+    del HEAP[:], HEAP_SNAP[:], TRACK[:]
     g = Gen(ctx, SUP)
     cases, meta = [], []
     dist = {}
@@ -922,10 +1113,30 @@ def run(ctx):
                           "the %s names usable without an explicit list are %r, the property says %r" % (kind, usable[kind], lit),
                           {"check": "default-set", "which": kind, "usable": usable[kind], "expected": lit})
 
+    mut_reported = set()
+
+    def heap_check(d, where):
+        """every shared caller registry still has the contents it was created with"""
+        for i, (sd, r) in enumerate(HEAP):
+            now = reg_snapshot(r)
+            orig = HEAP_SNAP[i]
+            if now != orig and ("heap", i) not in mut_reported:
+                mut_reported.add(("heap", i))
+                ctx.violation({"kind": "caller-registry-mutated", "op": d["op"]},
+                              "the caller's shared registry #%d (%s, created with algorithms=%r) was changed %s %s "
+                              "(algorithms=%r registry=%r): vars(reg) was %r, is %r" % (
+                                  i, sd["cls"], sd["allowed"], where, d["op"], d["algorithms"], d["registry"], orig[1], now[1]),
+                              {"check": "registry-mutated", "call": describe(d), "registry_index": i,
+                               "before": repr(orig), "after": repr(now), "blob": replay_blob(K, [d], 0)})
+
     def run_call(d, record=True):
-        """execute with the frozen-state check and the direct oracle"""
+        """execute with the frozen-state checks and the direct oracle"""
+        import copy
         before = snapshot()
-        r = execute(d, K)
+        regobj = None if d["registry"] is ABSENT else make_registry(d["registry"])
+        reg_before = None if regobj is None else reg_snapshot(regobj)
+        kw = {}
+        r = execute(d, K, regobj, kw)
         after = snapshot()
         v = verdict_of(r)
         if (before != after or after != snap0) and not state_reported[0]:
@@ -934,6 +1145,27 @@ def run(ctx):
                           "process-wide registry state changed during %s (algorithms=%r registry=%r)" % (
                               d["op"], d["algorithms"], d["registry"]),
                           {"check": "state", "call": describe(d), "blob": replay_blob(K, [d], 0)})
+        # the registry object handed over by the caller: deep contents unchanged
+        if regobj is not None:
+            reg_after = reg_snapshot(regobj)
+            if reg_after != reg_before and ("call", d["op"]) not in mut_reported:
+                mut_reported.add(("call", d["op"]))
+                ctx.violation({"kind": "caller-registry-mutated", "op": d["op"]},
+                              "%s changed the registry object passed as registry= (%r) while called with algorithms=%r: "
+                              "vars(reg) was %r, is %r" % (d["op"], d["registry"], d["algorithms"], reg_before[1], reg_after[1]),
+                              {"check": "registry-mutated", "call": describe(d), "before": repr(reg_before),
+                               "after": repr(reg_after), "blob": replay_blob(K, [d], 0)})
+        # the caller's algorithms= list itself
+        def _members(v):
+            return (bool(v), sorted({x for x in v if isinstance(x, str)})) if isinstance(v, (list, tuple)) else repr(v)
+        # (only a change of the names it lists matters for later calls; a reordering does not)
+        if "algorithms" in kw and _members(kw["algorithms"]) != _members(d["algorithms"]) and ("list", d["op"]) not in mut_reported:
+            mut_reported.add(("list", d["op"]))
+            ctx.violation({"kind": "caller-list-mutated", "op": d["op"]},
+                          "%s changed the caller's algorithms= list from %r to %r" % (d["op"], d["algorithms"], kw["algorithms"]),
+                          {"check": "list-mutated", "call": describe(d), "blob": replay_blob(K, [d], 0)})
+        if HEAP:
+            heap_check(d, "by or before")
         bad = direct(d, v, SUP)
         if bad:
             ctx.violation({"kind": bad[0], "op": d["op"]},
@@ -963,7 +1195,7 @@ def run(ctx):
         if v[0] != "err":
             dist["ok:" + d["op"]] = dist.get("ok:" + d["op"], 0) + 1
         dist["verdict:" + (v[1] if v[0] == "err" else "ok")] = dist.get("verdict:" + (v[1] if v[0] == "err" else "ok"), 0) + 1
-        cases.append("Hist false [%s] [%s]" % (c_call(d), c_verdict_for(d, v)))
+        cases.append("Hist false [%s] [%s] []" % (c_call(d), c_verdict_for(d, v)))
         meta.append(("call", d, v))
         pool.append((d, v))
 
@@ -1016,10 +1248,74 @@ def run(ctx):
                               {"check": "history", "calls": [describe(x) for x in hist], "index": pos,
                                "first_verdict": list(v0), "verdict": list(v), "blob": replay_blob(K, hist, pos)})
         ctx.note_case(("hist", hno, tuple(key_of(x) for x in hist)))
-        cases.append("Hist false %s %s" % (c_list([c_call(x) for x in hist]),
-                                            c_list([c_verdict_for(x, y) for x, y in zip(hist, verdicts)])))
+        cases.append("Hist false %s %s []" % (c_list([c_call(x) for x in hist]),
+                                               c_list([c_verdict_for(x, y) for x, y in zip(hist, verdicts)])))
         meta.append(("history", [describe(x) for x in hist], verdicts))
     dist["history_calls"] = hist_calls
+
+    # ---- histories over SHARED caller-created registry objects, interleaved with per-call
+    #      algorithms= overrides of every shape on all entry points
+    for sd in shared_specs(g):
+        new_shared(sd)
+    first = {}
+    shared_calls = 0
+    for hno in range(ctx.scale(40, 400)):
+        refs = sorted(ctx.rng.sample(range(len(HEAP)), ctx.rng.randrange(3, 8)))
+        if not any(HEAP[i][0]["cls"] == "jwe" for i in refs):
+            refs.append(ctx.rng.choice([i for i in range(len(HEAP)) if HEAP[i][0]["cls"] == "jwe"]))
+        local = {gi: li for li, gi in enumerate(refs)}
+        hist, verdicts = [], []
+        for pos in range(ctx.rng.randrange(2, 41)):
+            d = shared_call(g, ctx, refs)
+            if d["op"] in JWS_VERIFY_OPS or d["op"] in JWE_DEC_OPS:
+                try:
+                    d["token"] = make_token(d, K)
+                except BaseException as e:  # noqa
+                    ctx.notes.append("token production failed for %r: %r" % (describe(d), e))
+                    continue
+            v = run_call(d)
+            shared_calls += 1
+            hist.append(d)
+            verdicts.append(v)
+            dist["shared:" + ("ref" if (d["registry"] is not ABSENT and d["registry"][0] == "ref") else "other")] = \
+                dist.get("shared:" + ("ref" if (d["registry"] is not ABSENT and d["registry"][0] == "ref") else "other"), 0) + 1
+            if d["registry"] is not ABSENT and d["registry"][0] == "ref":
+                # the same call with a freshly constructed equal registry
+                vf = verdict_of(execute(freshened(d), K))
+                if vf != v:
+                    ctx.violation({"kind": "shared-registry-history", "op": d["op"]},
+                                  "%s with the caller's shared registry #%d (created with algorithms=%r) and algorithms=%r gave %r as "
+                                  "call %d of a history, but %r with a freshly constructed equal registry" % (
+                                      d["op"], d["registry"][1], spec_of(d["registry"])["allowed"], d["algorithms"], v, pos, vf),
+                                  {"check": "shared", "calls": [describe(x) for x in hist], "index": len(hist) - 1,
+                                   "verdict": list(v), "fresh_verdict": list(vf), "blob": replay_blob(K, hist, len(hist) - 1)})
+            v0 = first.setdefault(key_of(d), v)
+            if v0 != v:
+                ctx.violation({"kind": "history-dependent", "op": d["op"], "shared": True},
+                              "%s gave %r as call %d of a history over shared registries but %r when first made" % (d["op"], v, pos, v0),
+                              {"check": "history", "calls": [describe(x) for x in hist], "index": len(hist) - 1,
+                               "first_verdict": list(v0), "verdict": list(v), "blob": replay_blob(K, hist, len(hist) - 1)})
+        if not hist:
+            continue
+        ctx.note_case(("shared-hist", hno, tuple(key_of(x) for x in hist)))
+        observed = heap_observed()
+        loc_hist = [dict(x, registry=("ref", local[x["registry"][1]])) if (x["registry"] is not ABSENT and x["registry"][0] == "ref")
+                    else x for x in hist]
+        cases.append("Hist false %s %s %s" % (
+            c_list(["CallNewReg %s" % c_regobj(HEAP[i][0]) for i in refs] + [c_call(x) for x in loc_hist]),
+            c_list(["VUnit (Ok tt)"] * len(refs) + [c_verdict_for(x, y) for x, y in zip(hist, verdicts)]),
+            c_list([c_regobj(observed[i]) for i in refs])))
+        meta.append(("shared-history", [describe(x) for x in hist], verdicts))
+    dist["shared_registry_history_calls"] = shared_calls
+    dist["shared_registries"] = len(HEAP)
+    # final sweep: every registry object ever handed to the library still has its contents
+    changed = [(r, snap) for r, snap in TRACK if reg_snapshot(r) != snap]
+    if changed and not mut_reported:
+        r, snap = changed[0]
+        ctx.violation({"kind": "caller-registry-mutated", "op": "sweep"},
+                      "%d registry objects passed to the library changed: e.g. vars(reg) was %r, is %r" % (
+                          len(changed), snap[1], reg_snapshot(r)[1]), {"check": "registry-mutated"})
+    dist["registry_objects_tracked"] = len(TRACK)
 
     # ---- verdicts in a pristine interpreter state (forked before the first call)
     n_fresh = ctx.scale(250, 3000)
@@ -1046,7 +1342,7 @@ def run(ctx):
         ctx.notes.append("drafts subprocess failed: %s" % dverd)
     else:
         for d, v in zip(dcalls, dverd):
-            cases.append("Hist true [%s] [%s]" % (c_call(d), c_verdict_for(d, v)))
+            cases.append("Hist true [%s] [%s] []" % (c_call(d), c_verdict_for(d, v)))
             meta.append(("drafts-call", d, v))
             ctx.note_case(("drafts", key_of(d)))
         dist["drafts_calls"] = len(dcalls)
@@ -1123,20 +1419,37 @@ def replay(path):
         return 1
     blob = pickle.loads(base64.b64decode(rep["blob"]))
     K = Keys(jwks=blob["keys"])
+    del HEAP[:], HEAP_SNAP[:], TRACK[:]
+    for sd in blob.get("heap", []):
+        new_shared(sd)
     SUP = {"jws": list(jws.JWSRegistry.algorithms), "alg": list(jwe.JWERegistry.algorithms["alg"]),
            "enc": list(jwe.JWERegistry.algorithms["enc"]), "zip": list(jwe.JWERegistry.algorithms["zip"])}
     snap0 = snapshot()
     first = {}
     bad = 0
     for i, d in enumerate(blob["calls"]):
-        v = verdict_of(execute(d, K))
+        regobj = None if d["registry"] is ABSENT else make_registry(d["registry"])
+        rb = None if regobj is None else reg_snapshot(regobj)
+        v = verdict_of(execute(d, K, regobj))
         print(i, d["op"], {k: x for k, x in d.items() if k not in ("token", "op")}, "->", v)
+        if regobj is not None and reg_snapshot(regobj) != rb:
+            print("   the registry passed in was changed: %r -> %r" % (rb[1], reg_snapshot(regobj)[1]))
+            bad = 1
         if direct(d, v, SUP):
             print("   direct oracle:", direct(d, v, SUP))
             bad = 1
         if snapshot() != snap0:
             print("   registry state changed")
             bad = 1
+        for i, (sd, r) in enumerate(HEAP):
+            if reg_snapshot(r) != HEAP_SNAP[i]:
+                print("   caller's shared registry #%d changed: %r -> %r" % (i, HEAP_SNAP[i][1], reg_snapshot(r)[1]))
+                bad = 1
+        if d["registry"] is not ABSENT and d["registry"][0] == "ref":
+            vf = verdict_of(execute(freshened(d), K))
+            if vf != v:
+                print("   verdict with a freshly constructed equal registry:", vf)
+                bad = 1
         if first.setdefault(key_of(d), v) != v:
             print("   verdict differs from the first time")
             bad = 1
